@@ -27,6 +27,41 @@ def rcfg(rng):
                             rng.choice([64, 256, 1024]), rng.randrange(2))
 
 
+
+def gen_reuse_boundary(tier, rng):
+    """write-ahead logs that grow across 32 KiB block boundaries over several sessions: a memtable
+    budget large enough that the log is not rotated, values of 8..30 KB, a close + reopen with
+    reuse_log_files = true between the writes (the reopened writer has to continue at the block
+    offset where the file ends), a final reopen (either setting) and reads of everything. A sweep
+    makes the first session end at every offset from 70 bytes before to 10 bytes after the first
+    boundary."""
+    cases = []
+    big = "%d:%d:4096:1" % (1 << 20, 1 << 20)
+    B = 32768
+    sweep = range(0, 81, 1 if tier == "thorough" else 4)
+    for d in sweep:
+        toks = ["u%d" % d, big, "Px61=p%d.7.3" % (B - 100 + d), "O" + big, "Px62=p%d.9.1" % rng.choice([1, 40, 9000]),
+                "Px63=p20000.1.1", "Dx61" if d % 2 else "Px64=x01", "O%d:%d:4096:%d" % (1 << 20, 1 << 20, d % 3 != 0),
+                "A", "Gx61", "Gx62", "Gx63", "Gx64"]
+        cases.append(" ".join(toks))
+    n = 10 if tier == "quick" else 300
+    for i in range(n):
+        toks = ["v%d" % i, big]
+        for _ in range(rng.randrange(2, 5)):
+            for _ in range(rng.randrange(1, 4)):
+                k = rkey(rng, 6)
+                if rng.random() < 0.15:
+                    toks.append("D" + k)
+                else:
+                    toks.append("P%s=p%d.%d.%d" % (k, rng.choice([rng.randrange(8000, 30000), rng.randrange(1, 200)]), rng.randrange(256), rng.choice([1, 3])))
+            toks.append("O" + big)
+        toks[-1] = "O%d:%d:4096:%d" % (1 << 20, 1 << 20, rng.randrange(2))
+        toks.append("A")
+        for k in range(6):
+            toks.append("G" + KEYS[k])
+        cases.append(" ".join(toks))
+    return cases
+
 def iter_ops(rng, nkeys, n):
     ops = []
     for _ in range(n):
